@@ -128,16 +128,92 @@ def classify(text, rc, timed_out):
     return res
 
 
+LOOP_RE = re.compile(r"^Loop (\S+):\n\s+file (.*?) function (.*)$", re.M)
+
+
+def loop_unwindset(overlay, package, harness, target_dir, log_path, extra_args, rules):
+    """Per-loop unwind bounds: compile only, list the loops of the harness's goto binary with
+    goto-instrument, and give every loop whose id / function name matches a rule its own bound.
+    Unwinding assertions stay on, so a bound that is too small is reported, never silent."""
+    import glob
+    cmd = ["cargo", "kani", "-p", package, "-Z", "stubbing", "--harness", harness, "--exact",
+           "--target-dir", target_dir, "--only-codegen"] + list(extra_args or [])
+    env = dict(os.environ)
+    env.update(KANI_ENV)
+    with open(log_path, "w") as log:
+        log.write("$ " + " ".join(cmd) + "\n")
+        log.flush()
+        p = subprocess.run(cmd, cwd=overlay, stdout=log, stderr=subprocess.STDOUT, env=env)
+    if p.returncode != 0:
+        return None
+    short = harness.split("::")[-1]
+    outs = [f for f in glob.glob(os.path.join(target_dir, "kani", "*", "debug", "build", "*", "*", "out", "*.out"))
+            if not f.endswith(".symtab.out") and re.search(r"\d+%s\.out$" % re.escape(short), f)]
+    if not outs:
+        outs = [f for f in glob.glob(os.path.join(target_dir, "kani", "**", "*.out"), recursive=True)
+                if not f.endswith(".symtab.out") and f.endswith(short + ".out")]
+    if not outs:
+        return None
+    outs.sort(key=os.path.getmtime)
+    q = subprocess.run(["goto-instrument", "--show-loops", outs[-1]], stdout=subprocess.PIPE,
+                       stderr=subprocess.DEVNULL, text=True)
+    pairs = []
+    rec_rules = [(rx[4:], b) for rx, b in rules if rx.startswith("rec:")]
+    if rec_rules:
+        # recursion bounds: CBMC identifies a recursion by the (mangled) function symbol
+        import json
+        pm = outs[-1][:-len(".out")] + ".pretty_name_map.json"
+        try:
+            names = json.load(open(pm))
+        except (OSError, ValueError):
+            names = {}
+        for mangled, pretty in names.items():
+            for rx, bound in rec_rules:
+                if pretty and re.search(rx, str(pretty)):
+                    pairs.append("%s:%d" % (mangled, bound))
+                    break
+    rules = [(rx, b) for rx, b in rules if not rx.startswith("rec:")]
+    for rx, bound in rules:
+        if rx.startswith("="):
+            # a loop of CBMC's built-in library (linked in after codegen): literal id
+            pairs.append("%s:%d" % (rx[1:], bound))
+    for lid, _file, fn in LOOP_RE.findall(q.stdout):
+        for rx, bound in rules:
+            if rx.startswith("="):
+                continue
+            if re.search(rx, lid) or re.search(rx, fn):
+                pairs.append("%s:%d" % (lid, bound))
+                break
+    return pairs
+
+
 def run_harness(overlay, package, harness, target_dir, log_path, timeout_s=900, mem_gb=14,
-                extra_args=None, cbmc_args=None, playback=False):
+                extra_args=None, cbmc_args=None, playback=False, loop_rules=None):
     cmd = ["cargo", "kani", "-p", package, "-Z", "stubbing", "--harness", harness, "--exact",
            "--target-dir", target_dir]
     if playback:
         cmd += ["-Z", "concrete-playback", "--concrete-playback=print"]
     if extra_args:
         cmd += list(extra_args)
+    cbmc_args = list(cbmc_args or [])
+    if loop_rules:
+        pairs = loop_unwindset(overlay, package, harness, target_dir, log_path + ".codegen", extra_args, loop_rules)
+        if pairs is None:
+            with open(log_path + ".codegen", errors="replace") as fh:
+                text = fh.read()
+            res = classify(text, 1, False)
+            res.update({"harness": harness.split("::")[-1], "wall_s": 0.0, "log": log_path + ".codegen",
+                        "cmd": "codegen"})
+            if res["verdict"] != "inconclusive" or not res["reason"]:
+                res["verdict"] = "inconclusive"
+                res["reason"] = "codegen / loop listing failed"
+            return res
+        if pairs:
+            cbmc_args += ["--unwindset", ",".join(pairs)]
     if cbmc_args:
-        cmd += ["-Z", "unstable-options", "--cbmc-args"] + list(cbmc_args)
+        if "unstable-options" not in cmd:
+            cmd += ["-Z", "unstable-options"]
+        cmd += ["--cbmc-args"] + cbmc_args
     env = dict(os.environ)
     env.update(KANI_ENV)
     t0 = time.time()
